@@ -208,6 +208,7 @@ pub struct GoView<'a> {
     /// All positions of the reference game up to that point.
     pub game: Vec<Pos>,
     pub deliver_clock: u64,
+    pub deliver_ticks: u64,
     pub deliver_stalled: u64,
     pub deliver_step: u64,
     /// Had every earlier go's bestmove been emitted when this go was delivered?
@@ -233,6 +234,7 @@ pub fn go_views(h: &Hist) -> Vec<GoView<'_>> {
                 pos: if rs.known { Some(rs.current().clone()) } else { None },
                 game: rs.game.clone(),
                 deliver_clock: l.clock,
+                deliver_ticks: l.ticks,
                 deliver_stalled: l.stalled,
                 deliver_step: l.step,
                 earlier_all_answered,
